@@ -249,3 +249,67 @@ def emit_order(F):
     # at_end definition: idx >= instructions.len() - 1
     r.count("guarded_sinks", len(guards))
     return r
+
+
+def clear_coherent(F):
+    """R-CLEAR-COHERENT: has_instr states, per list, what "holds instrumentation" means (`!f.instrs.is_empty()` or
+    `!f.is_none()` — for the Option lists Some(vec![]) MEANS removal).  clear_instr(M) must establish the negation
+    of exactly that predicate for f(M): `.clear()` for is_empty lists, `= None` for is_none lists."""
+    r = RuleResult("R-CLEAR-COHERENT",
+                   "clear_instr(M) leaves list f(M) in the state has_instr / check_special_is_resolved treat as empty: lists tested with is_none() are reset to None (Some(empty) means removal), lists tested with instrs.is_empty() are cleared")
+    short = IFLAG.split("::")[-1]
+    hi = F.one_fn(name="has_instr", self_adt=short)
+    cl = F.one_fn(name="clear_instr", self_adt=short)
+    r.analysed += [hi["path"], cl["path"]]
+    bound = {}
+    for n in walk(hi["body"]):
+        if n.get("k") == "Let" and n["pat"].get("k") == "Struct" and n["pat"].get("adt") == IFLAG:
+            for fname, sub in n["pat"]["fields"]:
+                if sub.get("k") == "Binding":
+                    bound[sub["hid"]] = fname
+    test = {}
+    for n in walk(hi["body"]):
+        if n.get("k") == "MethodCall" and n["method"] in ("is_none", "is_some", "is_empty"):
+            base = n["recv"]
+            fld = None
+            for x in walk(base):
+                if x.get("k") == "Path" and x.get("res", {}).get("hid") in bound:
+                    fld = bound[x["res"]["hid"]]
+                if x.get("k") == "Field" and peel(x["base"]).get("res", {}).get("name") == "self":
+                    fld = x["name"]
+            if fld:
+                test[fld] = "none" if n["method"] in ("is_none", "is_some") else "empty"
+    modes = set(F.variants(IM))
+    n = 0
+    for mt in [x for x in walk(cl["body"]) if x.get("k") == "Match"]:
+        for arm in mt["arms"]:
+            ms = _mode_variants_in(arm["pat"], IM)
+            for m in ms:
+                f = snake(m)
+                want = test.get(f)
+                if want is None:
+                    continue
+                n += 1
+                got = None
+                for x in walk(arm["body"]):
+                    if x.get("k") == "Assign" and (place_path(x["lhs"]) or "") == "self." + f:
+                        rhs = peel(x["rhs"])
+                        if rhs.get("res", {}).get("variant") == "None" or (rhs.get("k") == "Path" and (rhs.get("res", {}).get("path") or "").endswith("None")):
+                            got = "none"
+                        else:
+                            got = "assigned"
+                    if x.get("k") == "MethodCall" and x["method"] == "clear" and (place_path(x["recv"]) or "").startswith("self." + f + ".") and got is None:
+                        got = "empty"
+                    if x.get("k") == "MethodCall" and x["method"] == "take" and (place_path(x["recv"]) or "") == "self." + f:
+                        got = "none"
+                ok = got == want
+                r.ob(ok, {"mode": m, "list": f, "has_instr_tests": want, "clear_establishes": got})
+                if not ok:
+                    r.violate("%s | %s" % (cl["path"], m), F.loc(cl, arm),
+                              "clear_instr(%s) leaves `%s` %s, but has_instr treats the list as holding instrumentation unless it %s: a resolved injection is seen again (and re-lowered) by the next encode" % (
+                                  m, f, {"empty": "Some(empty)/cleared in place", "assigned": "assigned a non-None value", None: "untouched"}.get(got, got),
+                                  "is None" if want == "none" else "is empty"))
+    r.count("cleared_modes", n)
+    if n < len(modes):
+        raise CheckError("clear_instr/has_instr: only %d of %d modes paired" % (n, len(modes)))
+    return r
